@@ -122,6 +122,67 @@ CFG = {
 }
 
 
+FILLER = "fn filler(a: i32) -> i32\n{\n\treturn: a\n}\n"
+
+
+def cli_pass(rep, tier, seed, cases):
+    """The accepted bodies once more through the REAL command line tool, as one of TWO modules of a compilation (the eighth
+    round of seeded changes: the tool took the lints once, after its loop over the modules, and only those of the last module
+    were left).  `penne emit case.pn filler.pn` and `penne emit filler.pn case.pn`: exit status 0 and as many `[L1800]` as the
+    rule demands, wherever the module stands."""
+    import os
+    import random
+    from . import c02, pipeline_common as pc
+    penne = pc.build_penne()
+    rnd = random.Random(seed)
+    # (one function per module; the statements that carry an error of a later analysis are legally PLACED but do not compile)
+    plain = lambda c: c.get("ok") and not set(c.get("tokens", [])) & {"F", "MX", "MY", "SX"}
+    linted = [c for c in cases if plain(c) and c.get("lints")]
+    clean = [c for c in cases if plain(c) and not c.get("lints")]
+    chosen = rnd.sample(linted, min(len(linted), 150 if tier == "quick" else 1500)) + rnd.sample(clean, min(len(clean), 30 if tier == "quick" else 300))
+    if not chosen or not linted:
+        raise common.ToolError("C06 command line pass: no accepted case with an L1800 lint to run")
+    items = os.path.join(common.WORK, "c06-cli-%d-items.ndjson" % os.getpid())
+    rendered = os.path.join(common.WORK, "c06-cli-%d-cases.ndjson" % os.getpid())
+    common.write_ndjson(items, [{"id": "cli%d" % i, "b": c["b"]} for i, c in enumerate(chosen)])
+    common.build_harness(pc.EXE)
+    pc.pvh(["render-flat", items, rendered])
+    srcs = [json.loads(l)["mods"][0]["src"] for l in open(rendered)]
+    os.remove(items)
+    os.remove(rendered)
+    root = os.path.join(common.WORK, "c06-cli-%d" % os.getpid())
+    bad = 0
+    runs = 0
+    noticed = False
+    for i, (c, src) in enumerate(zip(chosen, srcs)):
+        for order in ("first", "last"):
+            mods = [{"name": "case.pn", "src": src}, {"name": "filler.pn", "src": FILLER}]
+            if order == "last":
+                mods.reverse()
+            res = c02.emit_one(penne, root, {"id": "c%d%s" % (i, order), "mods": mods}, 60)
+            runs += 1
+            got = (res["stderr"] + res["stdout"]).count("[L1800]")
+            want = len(c["lints"])
+            if res["rc"] == 0 and got == want and want > 0 and not noticed:
+                noticed = got != want - 1          # the comparison below notices a corrupted expectation
+            if res["rc"] != 0 or got != want:
+                bad += 1
+                rep.violation("cli-L1800", "%s as the %s of two modules :: %s" % (" ".join(c["tokens"]), order, "rc=%s" % res["rc"] if res["rc"] != 0 else "%d/%d" % (got, want)),
+                              {"case": c, "order": order, "source": src, "rc": res["rc"], "stderr": res["stderr"][-1500:],
+                               "message": "`penne emit` with the body as the %s of two modules: exit status %s, %d x [L1800]; the rule demands exit status 0 and %d" %
+                                          (order, res["rc"], got, want)})
+    import shutil
+    shutil.rmtree(root, ignore_errors=True)
+    if not noticed:
+        raise common.ToolError("C06 command line pass: no run showed the expected lints (self-test)")
+    common.log("[cli] %d accepted bodies (%d with L1800) x 2 positions among two modules through the real `penne emit`: %d runs, %d violations" %
+               (len(chosen), sum(1 for c in chosen if c["lints"]), runs, bad))
+    return {"cli_runs": runs, "cli_violations": bad}
+
+
+CFG["extra"] = cli_pass
+
+
 def run(rep, tier, seed, selftest):
     _state["seed"] = seed
     return flatcheck.run_flat(rep, tier, seed, selftest or tier == "thorough", CFG)
